@@ -231,16 +231,16 @@ def sideFaceMatch (nOld nNew : Nat) (old new : List FaceRec) (s : Scaling) : Mat
     `_primary_to_mortar_int` -/
 def covered (P : Mat) (j : Nat) : Bool := (List.range P.r).any fun i => P.ent i j != 0
 
+/-- one side of the fracture; a side without faces in one of the two grids is skipped (`continue`) -/
+def sideOrZero (nOld nNew : Nat) (o n : List FaceRec) (s : Scaling) : Mat :=
+  if o.isEmpty || n.isEmpty then table nOld nNew fun _ _ => 0 else sideFaceMatch nOld nNew o n s
+
 /-- `match_grids_along_1d_mortar(mg, g_new, g_old, tol, scaling)`: old faces × new faces, sum over the
-    positive and the negative side; a side without faces in one of the grids is skipped. -/
+    positive and the negative side of the fracture. -/
 def faceMatch (P : Mat) (nNew : Nat) (old new : List FaceRec) (s : Scaling) : Mat :=
   let oldC := old.filter fun f => covered P f.idx
-  let side (b : Bool) : Mat :=
-    let o := oldC.filter (·.pos == b)
-    let n := new.filter (·.pos == b)
-    if o.isEmpty || n.isEmpty then table P.c nNew fun _ _ => 0
-    else sideFaceMatch P.c nNew o n s
-  (side true).add (side false)
+  (sideOrZero P.c nNew (oldC.filter (·.pos == true)) (new.filter (·.pos == true)) s).add
+    (sideOrZero P.c nNew (oldC.filter (·.pos == false)) (new.filter (·.pos == false)) s)
 
 /-! ### the state machine driven by geometry -/
 
@@ -269,6 +269,12 @@ def newSides : List (List Cell) → List (Option (List Cell)) → List (List Cel
   | g :: gs, none :: ns => g :: newSides gs ns
   | g :: gs, [] => g :: newSides gs []
   | [], _ => []
+
+/-- the per-side matrix `update_mortar` uses: the match of the new against the old side grid, or the
+    identity for a side that is not replaced -/
+def blockOf (s : Scaling) (g : List Cell) : Option (List Cell) → Mat
+  | some n => match1d n g s
+  | none => Mat.identity g.length
 
 def step (st : St) : Op → St
   | .mortar ns =>
